@@ -129,10 +129,12 @@ Theorem write_never_fuel (b : bundle) : b_write b <> Fuel.
 Proof.
   rewrite b_write_eq. unfold b_write_nf.
   destruct (headers_ok b); cbn [chk bind]; [|discriminate].
+  destruct (urls_ok b); cbn [chk bind]; [|discriminate].
   pose proof (index_pres_no_fuel (b_ver b) (ients_of b)) as NF.
   destruct (index_pres (b_ver b) (groups_of (ients_of b))); cbn [bind]; try discriminate; [|contradiction].
   destruct (b_ver b); destruct (b_primary b) as [pu|]; destruct (b_manifest b) as [mu|];
-    try destruct (utf8_valid pu); try destruct (utf8_valid mu); cbn [chk bind]; discriminate.
+    try destruct (fst (any_url_ok pu)); try destruct (fst (abs_url_ok pu)); try destruct (fst (abs_url_ok mu));
+    try destruct (utf8_valid pu); try destruct (utf8_valid mu); cbn [andb chk bind]; discriminate.
 Qed.
 
 (* the index panics: the first group (URLs in order of first appearance) that is
@@ -176,54 +178,73 @@ Proof.
 Qed.
 
 (* C04 write_panic_iff: a run-time panic happens exactly when
-   - every response header map encodes (no duplicate names), and
-   - either the index callback panics on a URL that is not valid UTF-8, or the
-     index is fine, the version is b1, the manifest URL (if any) encodes, and
-     there is no primary URL (nil *url.URL dereference in writePrimaryURL). *)
+   - every response header map encodes and every exchange URL passes checkURL, and
+   - the index callback panics on a URL that is not valid UTF-8.
+   (A b1 bundle without primary URL is an error now, not a nil dereference.) *)
 Theorem write_panic_iff (b : bundle) :
-  b_write b = Panic <->
-  headers_ok b = true /\
-  (IndexPanics b \/ (IndexFine b /\ b_ver b = BV1 /\ b_primary b = None /\ manifest_fine b)).
+  b_write b = Panic <-> headers_ok b = true /\ urls_ok b = true /\ IndexPanics b.
 Proof.
-  rewrite b_write_eq. unfold b_write_nf, manifest_fine.
+  rewrite b_write_eq. unfold b_write_nf.
   destruct (headers_ok b); cbn [chk bind]; [|split; [discriminate|intros [H _]; discriminate]].
-  rewrite <- index_pres_panic_iff, <- index_pres_ok_iff.
+  destruct (urls_ok b); cbn [chk bind]; [|split; [discriminate|intros [_ [H _]]; discriminate]].
+  rewrite <- index_pres_panic_iff.
   destruct (index_pres (b_ver b) (groups_of (ients_of b))) as [ts| | |]; cbn [bind].
   - destruct (b_ver b); destruct (b_primary b) as [pu|]; destruct (b_manifest b) as [mu|];
-      try destruct (utf8_valid pu); try destruct (utf8_valid mu); cbn [chk bind].
-    all: split.
-    all: try (intros H; discriminate H).
-    all: try (intros _; split; [reflexivity|right; repeat split; eauto]).
-    all: try (intros [_ [H|[_ [Hv [Hp Hm]]]]]; try discriminate; try reflexivity).
-  - split; [discriminate|]. intros [_ [H|[[ts H] _]]]; discriminate.
-  - split; [intros _; split; [reflexivity|left; reflexivity]|reflexivity].
-  - split; [discriminate|]. intros [_ [H|[[ts H] _]]]; discriminate.
+      try destruct (fst (any_url_ok pu)); try destruct (fst (abs_url_ok pu)); try destruct (fst (abs_url_ok mu));
+      try destruct (utf8_valid pu); try destruct (utf8_valid mu); cbn [andb chk bind].
+    all: split; [intros H; discriminate H|intros [_ [_ H]]; discriminate H].
+  - split; [discriminate|]. intros [_ [_ H]]; discriminate.
+  - split; [intros _; repeat split|reflexivity].
+  - split; [discriminate|]. intros [_ [_ H]]; discriminate.
 Qed.
 
-(* the header map of an exchange fails to encode iff two names coincide after
-   case folding (or one folds to ":status") *)
-Lemma erh_err_iff (st : Z) (h : headers) :
-  encode_response_header st h = Err <-> ~ NoDup (status_name :: map (fun nv => lower (fst nv)) h).
+Lemma b_write_b1_no_primary_err_or_panic (b : bundle) :
+  b_ver b = BV1 -> b_primary b = None -> b_write b <> Panic -> b_write b = Err.
 Proof.
-  rewrite erh_eq, enc_map_dup. unfold raw_fields. cbn [map fst].
+  intros V P NP. rewrite b_write_eq in *. unfold b_write_nf in *. rewrite V, P in *.
+  destruct (headers_ok b); cbn [chk bind] in *; [|reflexivity].
+  destruct (urls_ok b); cbn [chk bind] in *; [|reflexivity].
+  destruct (index_pres BV1 (groups_of (ients_of b))) as [ts| | |] eqn:Ht; cbn [bind] in *; try reflexivity.
+  - destruct (b_manifest b) as [mu|]; [|reflexivity].
+    destruct (fst (abs_url_ok mu) && utf8_valid mu); reflexivity.
+  - contradiction.
+  - exfalso. pose proof (index_pres_no_fuel BV1 (ients_of b)) as NF. rewrite <- V in NF, Ht. contradiction.
+Qed.
+
+(* the header map of an exchange is refused iff the status is not a three-digit
+   number, some field is not writable (name starting with ':' or not ASCII, joined
+   value not ASCII), or two names coincide after case folding *)
+Lemma erh_err_iff (st : Z) (h : headers) :
+  encode_response_header st h = Err <->
+  (st < 100 \/ 999 < st)%Z \/ forallb hdr_writable_b h = false
+  \/ ~ NoDup (status_name :: map (fun nv => lower (fst nv)) h).
+Proof.
+  rewrite erh_eq. unfold erh_guard.
+  destruct ((st <? 100) || (999 <? st))%Z eqn:G; cbn [orb].
+  { split; [intros _; left; lia|reflexivity]. }
+  destruct (forallb hdr_writable_b h) eqn:Wh; cbn [negb].
+  2:{ split; [intros _; right; left; reflexivity|reflexivity]. }
+  rewrite enc_map_dup. unfold raw_fields. cbn [map fst].
   assert (E : map fst (map enc_field (map fold_hdr h)) = map bstr_item (map (fun nv => lower (fst nv)) h)).
   { rewrite !map_map. apply map_ext. reflexivity. }
   rewrite E.
   change (fst (enc_field (status_name, dec_of_Z st))
           :: map bstr_item (map (fun nv => lower (fst nv)) h))
     with (map bstr_item (status_name :: map (fun nv => lower (fst nv)) h)).
-  split; intros H C; apply H.
-  - apply NoDup_map_inj; [apply bstr_item_inj|exact C].
-  - eapply NoDup_map_inv'. exact C.
+  split.
+  - intros H. right; right. intros C. apply H. apply NoDup_map_inj; [apply bstr_item_inj|exact C].
+  - intros [H|[H|H]]; [lia|discriminate|]. intros C. apply H. eapply NoDup_map_inv'. exact C.
 Qed.
 
-Definition DupHeader (b : bundle) : Prop :=
+Definition BadHeader (b : bundle) : Prop :=
   exists x, In x (b_exchanges b) /\
-            ~ NoDup (status_name :: map (fun nv => lower (fst nv)) (bx_hdr x)).
+            ((bx_status x < 100 \/ 999 < bx_status x)%Z
+             \/ forallb hdr_writable_b (bx_hdr x) = false
+             \/ ~ NoDup (status_name :: map (fun nv => lower (fst nv)) (bx_hdr x))).
 
-Lemma headers_ok_false_iff (b : bundle) : headers_ok b = false <-> DupHeader b.
+Lemma headers_ok_false_iff (b : bundle) : headers_ok b = false <-> BadHeader b.
 Proof.
-  unfold headers_ok, DupHeader. split.
+  unfold headers_ok, BadHeader. split.
   - intros H. destruct (forallb _ _) eqn:F in H; [discriminate|]. clear H.
     assert (X : exists x, In x (b_exchanges b) /\
                           is_ok (encode_response_header (bx_status x) (bx_hdr x)) = false).
@@ -235,6 +256,64 @@ Proof.
     destruct (erh_cases (bx_status x) (bx_hdr x)) as [E|[hc E]]; [exact E|rewrite E in Ex; discriminate].
   - intros [x [Hx Dx]]. apply (erh_err_iff (bx_status x)) in Dx. apply not_true_is_false. intros T.
     rewrite forallb_forall in T. specialize (T x Hx). rewrite Dx in T. discriminate.
+Qed.
+
+Definition BadUrl (b : bundle) : Prop :=
+  exists x, In x (b_exchanges b) /\ url_writable (bx_url x) = false.
+
+Lemma urls_ok_false_iff (b : bundle) : urls_ok b = false <-> BadUrl b.
+Proof.
+  unfold urls_ok, BadUrl. split.
+  - intros F. induction (b_exchanges b) as [|x t IH]; [discriminate|]. cbn [forallb] in F.
+    apply andb_false_iff in F. destruct F as [F|F].
+    + exists x. split; [left; reflexivity|exact F].
+    + destruct (IH F) as [y [Hy Ey]]. exists y. split; [right; exact Hy|exact Ey].
+  - intros [x [Hx Dx]]. apply not_true_is_false. intros T.
+    rewrite forallb_forall in T. specialize (T x Hx). rewrite Dx in T. discriminate.
+Qed.
+
+(* the only panic left: some exchange URL is not valid UTF-8 *)
+Lemma IndexPanics_url (b : bundle) : IndexPanics b ->
+  exists x, In x (b_exchanges b) /\ utf8_valid (bx_url x) = false.
+Proof.
+  intros [g1 [u [es [g2 [Eg [_ [U _]]]]]]].
+  assert (Hg : In (u, es) (groups_of (ients_of b))) by (rewrite Eg; apply in_or_app; right; left; reflexivity).
+  apply groups_of_in in Hg. destruct Hg as [_ [_ Hu]]. unfold ients_of in Hu. rewrite mk_ients_urls in Hu.
+  apply in_map_iff in Hu. destruct Hu as [x [E Hx]]. exists x. split; [exact Hx|]. rewrite E. exact U.
+Qed.
+
+(* ---- the writer never panics ---------------------------------------------------------------- *)
+(* checkURL refuses an exchange URL that is not valid UTF-8 before the index is
+   built, so EncodeTextString inside the index callback cannot fail any more *)
+Lemma urls_ok_utf8 (b : bundle) : urls_ok b = true ->
+  Forall (fun x => utf8_valid (bx_url x) = true) (b_exchanges b).
+Proof.
+  unfold urls_ok. intros H. rewrite forallb_forall in H. apply Forall_forall. intros x Hx.
+  specialize (H x Hx). unfold url_writable in H. apply andb_true_iff in H. apply H.
+Qed.
+
+Lemma urls_ok_no_index_panic (b : bundle) : urls_ok b = true -> ~ IndexPanics b.
+Proof.
+  intros U P. apply IndexPanics_url in P. destruct P as [x [Hx Ux]].
+  pose proof (urls_ok_utf8 b U) as F. rewrite Forall_forall in F. rewrite (F x Hx) in Ux. discriminate.
+Qed.
+
+Theorem b_write_never_panic (b : bundle) : b_write b <> Panic.
+Proof.
+  intros H. apply write_panic_iff in H. destruct H as [_ [U P]]. exact (urls_ok_no_index_panic b U P).
+Qed.
+
+Theorem b_write_ok_or_err (b : bundle) : b_write b = Err \/ exists bs, b_write b = Ok bs.
+Proof.
+  pose proof (b_write_never_panic b) as NP. pose proof (write_never_fuel b) as NF.
+  destruct (b_write b) as [bs| | |]; [right; eauto|left; reflexivity|contradiction|contradiction].
+Qed.
+
+(* a b1 bundle without primary URL: an error (used to be a nil dereference) *)
+Theorem b_write_b1_no_primary_err (b : bundle) :
+  b_ver b = BV1 -> b_primary b = None -> b_write b = Err.
+Proof.
+  intros V P. apply b_write_b1_no_primary_err_or_panic; [exact V|exact P|apply b_write_never_panic].
 Qed.
 
 Definition IndexErrs (b : bundle) : Prop :=
@@ -262,40 +341,47 @@ Proof.
 Qed.
 
 (* C04 write_err_iff: an error return happens exactly when
-   - some exchange has two header names equal after case folding, or
-   - (headers fine) the index refuses: two resources for one URL in b2, or bad
+   - some exchange has a refused header map (status, names, values, duplicate), or
+   - (headers fine) some exchange URL has a fragment or credentials, or
+   - (URLs fine) the index refuses: two resources for one URL in b2, or bad
      Variants / Variant-Key coverage for a URL with several resources in b1, or
-   - (index fine) b2 with a primary URL that is not valid UTF-8, a manifest URL
-     in b2, a manifest URL that is not valid UTF-8, or (b1) a primary URL that
-     is not valid UTF-8. *)
+   - (index fine) one of the remaining tests fails; they are listed by AfterIndexErr. *)
+Definition AfterIndexErr (b : bundle) : Prop :=
+  (b_ver b = BV2 /\ exists u, b_primary b = Some u /\ (fst (abs_url_ok u) = false \/ utf8_valid u = false))
+  \/ (b_ver b = BV2 /\ b_manifest b <> None)
+  \/ (exists u, b_manifest b = Some u /\ (fst (abs_url_ok u) = false \/ utf8_valid u = false))
+  \/ (b_ver b = BV1 /\ exists u, b_primary b = Some u /\ (fst (any_url_ok u) = false \/ utf8_valid u = false))
+  \/ (b_ver b = BV1 /\ b_primary b = None).
+
 Theorem write_err_iff (b : bundle) :
   b_write b = Err <->
-  DupHeader b \/
+  BadHeader b \/
   (headers_ok b = true /\
-   (IndexErrs b \/
-    (IndexFine b /\
-     ((b_ver b = BV2 /\ exists u, b_primary b = Some u /\ utf8_valid u = false)
-      \/ (b_ver b = BV2 /\ b_manifest b <> None)
-      \/ (exists u, b_manifest b = Some u /\ utf8_valid u = false)
-      \/ (b_ver b = BV1 /\ exists u, b_primary b = Some u /\ utf8_valid u = false))))).
+   (BadUrl b \/
+    (urls_ok b = true /\
+     (IndexErrs b \/ (IndexFine b /\ AfterIndexErr b))))).
 Proof.
-  rewrite b_write_eq. unfold b_write_nf. rewrite <- headers_ok_false_iff.
+  rewrite b_write_eq. unfold b_write_nf, AfterIndexErr. rewrite <- headers_ok_false_iff, <- urls_ok_false_iff.
   destruct (headers_ok b); cbn [chk bind];
     [|split; [intros _; left; reflexivity|reflexivity]].
+  destruct (urls_ok b); cbn [chk bind];
+    [|split; [intros _; right; split; [reflexivity|left; reflexivity]|reflexivity]].
   rewrite <- index_pres_err_iff, <- index_pres_ok_iff.
   destruct (index_pres (b_ver b) (groups_of (ients_of b))) as [ts| | |]; cbn [bind].
   - destruct (b_ver b); destruct (b_primary b) as [pu|]; destruct (b_manifest b) as [mu|];
-      try destruct (utf8_valid pu) eqn:Up; try destruct (utf8_valid mu) eqn:Um; cbn [chk bind].
+      try destruct (fst (any_url_ok pu)) eqn:Ap'; try destruct (fst (abs_url_ok pu)) eqn:Ap; try destruct (fst (abs_url_ok mu)) eqn:Am;
+      try destruct (utf8_valid pu) eqn:Up; try destruct (utf8_valid mu) eqn:Um; cbn [andb chk bind].
     all: split.
     all: try (intros H; discriminate H).
-    all: try (intros [H|[_ [H|[_ [[Hv [u [Hu Hx]]]|[[Hv Hx]|[[u [Hu Hx]]|[Hv [u [Hu Hx]]]]]]]]]];
+    all: try (intros [H|[_ [H|[_ [H|[_ [[Hv [u [Hu [Hx|Hx]]]]|[[Hv Hx]|[[u [Hu [Hx|Hx]]]|[[Hv [u [Hu [Hx|Hx]]]]|[Hv Hx]]]]]]]]]]];
               try discriminate; try reflexivity; congruence).
-    all: intros _; right; split; [reflexivity|right; split; [eauto|]].
-    all: first [ solve [left; split; [reflexivity|]; eexists; split; [reflexivity|assumption]]
+    all: intros _; right; split; [reflexivity|right; split; [reflexivity|right; split; [eauto|]]].
+    all: first [ solve [left; split; [reflexivity|]; eexists; split; [reflexivity|auto]]
                | solve [right; left; split; [reflexivity|discriminate]]
-               | solve [right; right; left; eexists; split; [reflexivity|assumption]]
-               | solve [right; right; right; split; [reflexivity|]; eexists; split; [reflexivity|assumption]] ].
-  - split; [intros _; right; split; [reflexivity|left; reflexivity]|reflexivity].
-  - split; [discriminate|]. intros [H|[_ [H|[[ts H] _]]]]; discriminate.
-  - split; [discriminate|]. intros [H|[_ [H|[[ts H] _]]]]; discriminate.
+               | solve [right; right; left; eexists; split; [reflexivity|auto]]
+               | solve [right; right; right; left; split; [reflexivity|]; eexists; split; [reflexivity|auto]]
+               | solve [right; right; right; right; split; reflexivity] ].
+  - split; [intros _; right; split; [reflexivity|right; split; [reflexivity|left; reflexivity]]|reflexivity].
+  - split; [discriminate|]. intros [H|[_ [H|[_ [H|[[ts H] _]]]]]]; discriminate.
+  - split; [discriminate|]. intros [H|[_ [H|[_ [H|[[ts H] _]]]]]]; discriminate.
 Qed.
